@@ -31,6 +31,8 @@ type Job struct {
 	WantLog bool           `json:"want_log,omitempty"`
 	Tier    string         `json:"tier,omitempty"`
 	Knobs   map[string]int `json:"knobs,omitempty"`
+	// RaceFiles (race pass only): a data race counts when both accesses lie in one of these files
+	RaceFiles []string `json:"race_files,omitempty"`
 }
 
 // Result is what a worker reports for a job.
@@ -267,10 +269,105 @@ func WorkerMain(t *testing.T) {
 		fmt.Fprintf(w, "@@B %d\n", job.ID)
 		w.Flush()
 		res := Execute(t, &job)
+		if simsync.RaceEnabled {
+			raceVerdict(&res, job.RaceFiles)
+		}
 		b, _ := json.Marshal(res)
 		w.WriteString("@@R ")
 		w.Write(b)
 		w.WriteString("\n")
 		w.Flush()
+	}
+}
+
+// ---- race tier ----
+
+var raceLogOff int64
+
+// raceVerdict reads what the race detector reported during the job just executed (GORACE log_path=<prefix>, file
+// <prefix>.<pid>) and turns the first data race between two accesses of emulator code into a violation of the job's
+// property. Reports in which either access is harness code (verifsim/...) say nothing about the emulator: the
+// simulation deliberately hides its own synchronisation from the detector.
+func raceVerdict(res *Result, files []string) {
+	prefix := os.Getenv("VERIF_RACE_LOG")
+	if prefix == "" {
+		return
+	}
+	f, err := os.Open(fmt.Sprintf("%s.%d", prefix, os.Getpid()))
+	if err != nil {
+		return
+	}
+	defer f.Close()
+	f.Seek(raceLogOff, 0)
+	b, _ := io.ReadAll(f)
+	raceLogOff += int64(len(b))
+	for _, rep := range strings.Split(string(b), "WARNING: DATA RACE")[1:] {
+		var tops, topFiles []string
+		lines := strings.Split(rep, "\n")
+		for i, l := range lines {
+			if (strings.Contains(l, " by goroutine ") || strings.Contains(l, " by main goroutine")) && (strings.HasPrefix(l, "Write at") || strings.HasPrefix(l, "Read at") || strings.HasPrefix(l, "Previous write at") || strings.HasPrefix(l, "Previous read at") || strings.HasPrefix(l, "Atomic") || strings.HasPrefix(l, "Previous atomic")) {
+				// the first frame below that belongs to the emulator or the harness (skipping the standard library)
+				top := ""
+				for j := i + 1; j < len(lines) && strings.HasPrefix(lines[j], "  "); j++ {
+					fn := strings.TrimSpace(lines[j])
+					if strings.HasPrefix(fn, "go.amzn.com/") {
+						top = fn
+						if j+1 < len(lines) {
+							file := strings.TrimSpace(lines[j+1])
+							if k := strings.LastIndex(file, ":"); k > 0 {
+								file = file[:k] // strip ":line +0x.."
+							}
+							topFiles = append(topFiles, file)
+						}
+						break
+					}
+				}
+				tops = append(tops, top)
+			}
+		}
+		if len(tops) < 2 {
+			continue
+		}
+		harness := false
+		for _, fn := range tops[:2] {
+			if fn == "" || strings.Contains(fn, "go.amzn.com/verifsim/") || strings.Contains(fn, "go.amzn.com/cmd/aws-lambda-rie.Test") {
+				harness = true
+			}
+		}
+		if !harness && len(files) > 0 {
+			// both accesses must lie in the files the property is anchored in
+			in := 0
+			for _, tf := range topFiles {
+				for _, f := range files {
+					if strings.HasSuffix(tf, "/"+f) {
+						in++
+						break
+					}
+				}
+			}
+			if len(topFiles) < 2 || in < 2 {
+				if res.Stats.Probes != nil {
+					res.Stats.Probes["race-report-outside-the-anchored-files-ignored"]++
+				}
+				continue
+			}
+		}
+		if harness {
+			if res.Stats.Probes != nil {
+				res.Stats.Probes["race-report-in-harness-code-ignored"]++
+			}
+			continue
+		}
+		strip := func(fn string) string {
+			return strings.TrimPrefix(strings.TrimSuffix(fn, "()"), "go.amzn.com/")
+		}
+		a, c := strip(tops[0]), strip(tops[1])
+		if a > c {
+			a, c = c, a
+		}
+		if res.Viol == nil && res.Trouble == "" {
+			res.Viol = &Violation{Rule: res.Prop + ".data-race", Msg: fmt.Sprintf("unsynchronised accesses to the same memory by two goroutines of the emulator: %s / %s", a, c)}
+			res.Log = append(res.Log, "DATA RACE"+rep, fmt.Sprintf("VIOLATION %s: %s", res.Viol.Rule, res.Viol.Msg))
+		}
 	}
 }
